@@ -409,6 +409,40 @@ class ModelMixin:
 
     def bi_next(self, args, kw, st, node):
         v = args[0]
+        if v.k == "comp":
+            # next(<generator expression>[, default]): the first element passing the filter — here: *some* element passing it (witness),
+            # or the default / StopIteration when none does (lazy universal)
+            items = self.comp_static(v, st, node)
+            if items is not None:
+                if items:
+                    return [(st, items[0])]
+                return [(st, args[1])] if len(args) > 1 else [(self.raise_exc(st, "StopIteration"), None)]
+            src = self.comp_source(v, st)
+            n = z3.Length(src[1]) if src[0] == "seq" else src[1]
+            out = []
+            found = st.fork()
+            k = fresh("first")
+            found.idx.append(k)
+            _, cond, x = self.comp_elem_at(v, found, k)
+            found.assume(z3.And(k >= 0, k < n, cond))
+            if feasible(found.pc):
+                out.append((found, x))
+            none = st
+            snap = none.fork()
+
+            def inst(t, snap=snap):
+                tmp = snap.fork()
+                _, c2, _x = self.comp_elem_at(v, tmp, t)
+                facts = tmp.pc[len(snap.pc):]
+                for kk, vv in tmp.H.items():
+                    snap.H.setdefault(kk, vv)
+                return z3.Implies(z3.And(t >= 0, t < n), z3.And(facts + [z3.Not(c2)]))
+            none.univ.append(inst)
+            if len(args) > 1:
+                out.append((none, args[1]))
+            else:
+                out.append((self.raise_exc(none, "StopIteration"), None))
+            return out
         if v.k in ("ref", "val") and (v.cls == "iterator" or v.k == "val"):
             r = self.as_ref(v, st)
             lst = st.read("iterator.seq", r, Int)
